@@ -67,16 +67,30 @@ func cmdL1(args []string) {
 			flags = []string{}
 		}
 		enc.Encode(M{"k": "reset", "hid": h.HID, "mods": mods, "flags": flags})
-		for i, st := range h.Steps {
-			rec, err := w.Step(i+1, st)
+		n := 0
+		do := func(st M) M {
+			n++
+			rec, err := w.Step(n, st)
 			if err != nil {
-				fatal(2, "history %s step %d: %v", h.HID, i+1, err)
+				fatal(2, "history %s step %d: %v", h.HID, n, err)
 			}
 			if rec["ret"] == "harness" {
-				fatal(2, "history %s step %d: harness failure: %v", h.HID, i+1, rec["note"])
+				fatal(2, "history %s step %d: harness failure: %v", h.HID, n, rec["note"])
 			}
 			enc.Encode(rec)
 			total++
+			return rec
+		}
+		for _, st := range h.Steps {
+			rec := do(st)
+			if h.Config.AutoFlush && (gets(st, "step") == "Req" || gets(st, "step") == "Recv") && rec["ret"] == "ok" {
+				if rq, ok := st["req"].(map[string]any); ok && parked(M(rq)) {
+					if sid := w.sidOf(geti(st, "conn")); sid != 0 {
+						do(M{"step": "Tick", "sid": sid})
+						do(M{"step": "Proc", "conn": geti(st, "conn")})
+					}
+				}
+			}
 		}
 		w.Shutdown()
 	}
